@@ -146,7 +146,12 @@ impl<'grammar> TypeInferencer<'grammar> {
     }
 
     fn infer_types(mut self) -> NormResult<Types> {
-        let ids: Vec<NonterminalString> = self.nonterminals.keys().cloned().collect();
+        // Visit the nonterminals in a fixed order: which one is inferred
+        // first decides which cycle errors are swallowed below, so iterating
+        // in `HashMap` order made acceptance of some grammars depend on the
+        // process's hash seed.
+        let mut ids: Vec<NonterminalString> = self.nonterminals.keys().cloned().collect();
+        ids.sort();
 
         for id in &ids {
             self.nonterminal_type(id)?;
